@@ -22,6 +22,7 @@ func genStorage(t *rapid.T) Round {
 	r := Round{Comp: "memory-storage", P: map[string]int{}}
 	r.Closers = rapid.SampledFrom([]int{2, 2, 2, 3, 3, 4, 5, 6, 8}).Draw(t, "closers")
 	r.Paths = drawPaths(t, storagePaths, 3)
+	r.P["hfault"] = rapid.IntRange(0, 3).Draw(t, "hfault")  // bit 1: an earlier cleanup handler fails, bit 2: it is slow
 	r.P["variant"] = rapid.IntRange(0, 2).Draw(t, "ticker") // 0 no ticker, 1 ticker every 100us, 2 ticker every 1ms
 	r.P["keys"] = rapid.IntRange(0, 20).Draw(t, "keys")
 	r.P["opseed"] = rapid.IntRange(0, 1<<20).Draw(t, "opseed")
@@ -88,7 +89,10 @@ func runStorage(r Round) *outcome {
 			st.Close()
 		}
 	}()
-	var mine counter
+	var mine, faulty counter
+	if m := r.p("hfault"); m != 0 {
+		st.AddCleanHandler(faultyHandler(m, &faulty))
+	}
 	st.AddCleanHandler(func() error { mine.hit(); return nil })
 	for i := 0; i < r.p("keys"); i++ {
 		ttl := time.Duration(0)
@@ -148,6 +152,9 @@ func runStorage(r Round) *outcome {
 	leaks := settle(storagePrefixes, base, 2*time.Second)
 	if n := mine.get(); n != 1 {
 		o.failf("C16/memory-storage/cleanup-handler-ran-"+times(n), "registered cleanup handler ran %d times", n)
+	}
+	if n := faulty.get(); r.p("hfault") != 0 && n != 1 {
+		o.failf("C16/memory-storage/failing-or-slow-cleanup-handler-ran-"+times(n), "the cleanup handler registered before the counting one (fault mode %d) ran %d times", r.p("hfault"), n)
 	}
 	if !st.IsClosed() {
 		o.failf("C16/memory-storage/not-closed", "IsClosed()==false after Close")
